@@ -194,6 +194,102 @@ theorem distOKI_of_fluent {I : List (String × Geom × Nat)} {a : DistArgs} (h :
     · exact posInj_fluent_plate gD ht
     · exact posInj_fluent_trough1 gD h1'
 
+/-! ### The composition clause with `distribute` -/
+
+/-- Operations whose liquid is traceable, now including `distribute` of a positive volume. -/
+def traceableI (I : List (String × Geom × Nat)) (dev : Device) : Op → Prop
+  | .distribute a => DistOKI I dev a ∧ 0 < a.vol.q
+  | op => Amt.traceable op = true
+
+theorem compile_ablockD {labs₀ : List Labware} (w : World) (hwf : WFI (info w)) (op : Op)
+    (hop : traceableI (info w) w.cfg.dev op) : Amt.ABlock w.cfg.dev labs₀ (info w) (compile w op) := by
+  cases op with
+  | distribute a =>
+    simp only [compile]
+    cases hS : w.labs[a.src]? with
+    | none => exact Amt.ablock_fail _
+    | some S =>
+      cases hD : w.labs[a.dst]? with
+      | none => exact Amt.ablock_fail _
+      | some D =>
+        obtain ⟨⟨hne, hc0, hrest⟩, hpos⟩ := hop
+        obtain ⟨nS, hIS⟩ := info_getElem hS
+        obtain ⟨nD, hID⟩ := info_getElem hD
+        obtain ⟨hsrc, hnd⟩ := hrest _ _ _ _ _ _ hIS hID
+        exact ablock_compileDistribute hwf w.cfg rfl S D a ⟨nS, hIS⟩ ⟨nD, hID⟩ ⟨hne, hsrc, hc0, hnd⟩ hpos
+  | transfer s sw d dw vols label wash pb kw => exact Amt.compile_ablock w hwf _ rfl
+  | comment c => exact Amt.compile_ablock w hwf _ rfl
+  | wash n => exact Amt.compile_ablock w hwf _ rfl
+  | decontaminate => exact Amt.compile_ablock w hwf _ rfl
+  | flush => exact Amt.compile_ablock w hwf _ rfl
+  | commit => exact Amt.compile_ablock w hwf _ rfl
+  | setDiti i => exact Amt.compile_ablock w hwf _ rfl
+  | condenseLog l n label => exact Amt.compile_ablock w hwf _ rfl
+  | evoWash a => exact Amt.compile_ablock w hwf _ rfl
+  | aspirate _ _ _ _ _ => cases hop
+  | dispense _ _ _ _ _ _ => cases hop
+  | add _ _ _ _ _ => cases hop
+  | remove _ _ _ _ => cases hop
+  | aspirateWell _ => cases hop
+  | dispenseWell _ => cases hop
+  | reagentDistribution _ => cases hop
+  | evoAspirate _ _ _ => cases hop
+  | evoDispense _ _ _ _ => cases hop
+
+/-- **C01 (composition) with `distribute`.**  As `C01.replay_composition`, for programs of transfers, record-only
+    operations and `distribute` calls (positive volume, static side conditions `DistOKI`): the independent
+    interpreter — takes from the source range and puts into the destination positions in ascending order, moving
+    absolute amounts — ends with exactly `fraction × volume` of every component in every real well of every labware,
+    although the tracking removed once and added in argument order. -/
+theorem replay_composition_dist (w₀ : World) (hwf : WF w₀) (hgood : Amt.Good w₀) (h0 : w₀.recs = [])
+    (ops : List Op) (hops : ∀ op ∈ ops, traceableI (info w₀) w₀.cfg.dev op) (hok : (w₀.run ops).2 = none) :
+    (∃ st, (RState.ofLabs w₀.labs).run w₀.cfg.dev (w₀.run ops).1.recs = some st
+      ∧ Match st (w₀.run ops).1 ∧ Amt.AmtOK st (w₀.run ops).1) ∧ Amt.Good (w₀.run ops).1 := by
+  have hinv0 : Amt.AInv w₀.cfg.dev w₀.labs w₀ :=
+    ⟨RState.ofLabs w₀.labs, by rw [h0]; rfl, match_ofLabs w₀, Amt.amtOK_ofLabs w₀ hgood⟩
+  generalize hlabs : w₀.labs = labs₀ at hinv0 ⊢
+  generalize hdev : w₀.cfg.dev = dev at hinv0 hops ⊢
+  generalize hI : info w₀ = I at hops
+  clear h0 hlabs
+  induction ops generalizing w₀ with
+  | nil => exact ⟨hinv0, hgood⟩
+  | cons op ops ih =>
+    have hop := hops op List.mem_cons_self
+    unfold World.run at hok ⊢
+    cases hx : w₀.step op with
+    | mk w' e =>
+      rw [hx] at hok
+      cases e with
+      | some e => cases hok
+      | none =>
+        have hblock := compile_ablockD (labs₀ := labs₀) w₀ hwf op (by rw [hdev, hI]; exact hop)
+        have hstep : (w₀.exec (compile w₀ op)) = (w', none) := by unfold World.step at hx; exact hx
+        obtain ⟨hinv, hG'⟩ := hblock w₀ rfl hgood (by rw [hdev]; exact hinv0) (by rw [hstep])
+        rw [hstep, hdev] at hinv
+        rw [hstep] at hG'
+        have hcfg : w'.cfg = w₀.cfg := by have := step_cfg w₀ op; rw [hx] at this; exact this
+        have hwf' : WF w' := by have := step_wf w₀ op hwf; rw [hx] at this; exact this
+        have hI' : info w' = I := by have := step_info w₀ op; rw [hx] at this; rw [this, hI]
+        exact ih w' hwf' hG' hok (by rw [hcfg]; exact hdev) hinv hI'
+          (fun o ho => hops o (List.mem_cons_of_mem _ ho))
+
+/-- On an EVO: transfers, record-only operations and `distribute` of a positive volume from a trough with at most
+    26 virtual rows into another labware — nothing is assumed about the destination wells. -/
+def traceableEvo (I : List (String × Geom × Nat)) : Op → Prop
+  | .distribute a => DistEvo I a ∧ 0 < a.vol.q
+  | op => Amt.traceable op = true
+
+theorem replay_composition_evo (w₀ : World) (hwf : WF w₀) (hgood : Amt.Good w₀) (h0 : w₀.recs = [])
+    (hdev : w₀.cfg.dev = .evo) (ops : List Op) (hops : ∀ op ∈ ops, traceableEvo (info w₀) op)
+    (hok : (w₀.run ops).2 = none) :
+    (∃ st, (RState.ofLabs w₀.labs).run .evo (w₀.run ops).1.recs = some st
+      ∧ Match st (w₀.run ops).1 ∧ Amt.AmtOK st (w₀.run ops).1) ∧ Amt.Good (w₀.run ops).1 := by
+  have := replay_composition_dist w₀ hwf hgood h0 ops (fun op hop => by
+    have h := hops op hop
+    rw [hdev]
+    cases op <;> first | exact ⟨distOKI_of_evo h.1, h.2⟩ | exact h) hok
+  rw [hdev] at this; exact this
+
 /-- Operations covered on an EVO / on a Fluent, with the device-specific side conditions spelled out. -/
 def trackedEvo (I : List (String × Geom × Nat)) : Op → Prop
   | .distribute a => DistEvo I a
